@@ -606,8 +606,7 @@ def reflection_sites(prog: Program) -> List[Dict[str, Any]]:
             if isinstance(n, ast.Call) and isinstance(n.func, ast.Name) and n.func.id == "getattr":
                 if len(n.args) >= 2 and not isinstance(n.args[1], ast.Constant):
                     out.append({"kind": "getattr", "module": m.name, "where": where, "text": ast.unparse(n)})
-            if isinstance(n, ast.Attribute) and n.attr == "__dict__":
-                out.append({"kind": "__dict__", "module": m.name, "where": where, "text": ast.unparse(n)})
+            # (`x.__dict__` is modelled by Engine A as the object's field map and needs no special permission)
             if isinstance(n, (ast.Assign, ast.AugAssign)):
                 tgts = n.targets if isinstance(n, ast.Assign) else [n.target]
                 for t in tgts:
